@@ -21,6 +21,7 @@ const FOLLOW: [Op; 8] = [
 
 pub fn drain<const N: usize, P: Pad>(ctx: &mut Ctx) {
     let forget = ctx.args.flag("forget");
+    let lean = ctx.args.flag("lean");
     let routes: Vec<u8> = ctx.args.list("routes", &[0, 1, 2, 3]).iter().map(|&x| x as u8).collect();
     let maxscript = ctx.args.num("maxscript", 99) as usize;
     let starts = if N == 0 { 1 } else { N };
@@ -35,10 +36,10 @@ pub fn drain<const N: usize, P: Pad>(ctx: &mut Ctx) {
                     for form in valid_range_forms(a, b, len) {
                         for script in all_scripts.iter().filter(|s| s.len() <= sel + 1) {
                             let end = if forget { End::Forget } else { End::Drop };
-                            let key = hash64(&format!("{}|{}|{}|{}|{:?}|{}|{:?}", N, P::NAME, start, len, form, script_str(script), end));
-                            if !ctx.mine(key) {
+                            if !ctx.mine_next() {
                                 continue;
                             }
+                            let key = hash64(&format!("{}|{}|{}|{}|{:?}|{}|{:?}", N, P::NAME, start, len, form, script_str(script), end));
                             let op = Op::Drain(form, script.clone(), end);
                             for &route in &routes {
                                 if N == 0 && route != 0 && route != 3 {
@@ -67,15 +68,15 @@ pub fn drain<const N: usize, P: Pad>(ctx: &mut Ctx) {
                                 if forget {
                                     ctx.attribute = Some("C10");
                                 }
-                                step(&mut h, &mut model, &op, &mut env, ctx, &MonCfg::FULL, None, Some(&obs));
+                                step(&mut h, &mut model, &op, &mut env, ctx, &MonCfg::main(lean), None, Some(&obs));
                                 ctx.distinct.insert(key);
                                 if !forget {
                                     ctx.attribute = Some("C09");
                                 }
-                                for f in FOLLOW.iter() {
-                                    step(&mut h, &mut model, f, &mut env, ctx, &MonCfg::FULL, None, None);
+                                for f in FOLLOW.iter().skip(if lean { 4 } else { 0 }) {
+                                    step(&mut h, &mut model, f, &mut env, ctx, &MonCfg::main(lean), None, None);
                                 }
-                                if forget {
+                                if forget && !lean {
                                     let mut rng = Rng::new(key ^ ctx.args.seed);
                                     for _ in 0..8 {
                                         let f = gen_op(&mut rng, N, model.len(), true);
